@@ -42,7 +42,7 @@ from dsmc.report import HarnessError, Report, pmap
 PROP = "C17"
 COMPONENTS = ("..", ".", "", "data", "x", "lnk_out", "lnk_in", "lnk_up", "secret")
 MODES = ("direct", "via_symlink")
-CHUNK = 2500  # paths per worker payload
+CHUNK = 800  # paths per worker payload
 GRACE_MS = 3600_000
 
 STORAGE_ENTRIES = (
@@ -689,7 +689,9 @@ def _repro(w: World, entry: str, path: str) -> str:
     if entry == "append_files":
         return f"load_table({tp!r}).new_transaction().begin().append_files([DataFile(file_path={path!r}, ...)])"
     if entry in TAMPER:
-        return (f"rewrite {TAMPER[entry]} of the current snapshot to {path!r} (fastavro/json), then "
+        what = {"entry": "the first manifest entry's data_file.file_path", "manifest_path": "the first manifest_path in "
+                "the manifest list", "manifest_list": "manifest_list in the metadata json"}[TAMPER[entry]]
+        return (f"rewrite {what} of the current snapshot to {path!r} (fastavro/json), then "
                 f"load_table({tp!r}).scan({'verify_checksums=False' if entry.endswith('noverify') else ''})")
     if entry == "gc_marker":
         return f"write {MARKER_REL} = {{'file_path': {path!r}}}; load_table({tp!r}).garbage_collect({GRACE_MS})"
@@ -782,8 +784,20 @@ def run_case(w: World, rec: Recorder, rep: Report, entry: str, label: str, path:
 # ---------------------------------------------------------------------------
 # worker / driver
 # ---------------------------------------------------------------------------
-def all_paths(w: World, tier: str) -> List[Tuple[str, str]]:
-    g = grammar(3 if tier == "quick" else 4)
+HEAVY = tuple(e for e in TABLE_ENTRIES if e != "append_files")  # a scan / a collection per case
+
+
+def depth_of(entry: str, tier: str) -> int:
+    """Grammar depth per entry point: 4 everywhere in the thorough tier; the quick
+    tier uses 3 for the storage / DataFileManager / append_files entry points and
+    2 for the entry points that cost a whole scan or garbage collection per case."""
+    if tier != "quick":
+        return 4
+    return 2 if entry in HEAVY else 3
+
+
+def all_paths(w: World, depth: int) -> List[Tuple[str, str]]:
+    g = grammar(depth)
     seen = set(g)
     out = [("grammar", p) for p in g]
     for p in EXTRAS:
@@ -794,8 +808,8 @@ def all_paths(w: World, tier: str) -> List[Tuple[str, str]]:
     return out
 
 
-def n_paths(tier: str) -> int:
-    g = set(grammar(3 if tier == "quick" else 4))
+def n_paths(depth: int) -> int:
+    g = set(grammar(depth))
     return len(g | set(EXTRAS)) + N_ABS
 
 
@@ -807,9 +821,10 @@ def run_chunk(payload: Tuple) -> Dict[str, Any]:
     rep = Report(PROP, tier, seed, "exploration")
     w = World(f"c17-{entry}-{mode}-{k}", mode, seed)
     rec = Recorder(w)
-    paths = all_paths(w, tier)
-    if len(paths) != n_paths(tier):
-        raise HarnessError(f"path enumeration is not deterministic: {len(paths)} vs {n_paths(tier)}")
+    depth = depth_of(entry, tier)
+    paths = all_paths(w, depth)
+    if len(paths) != n_paths(depth):
+        raise HarnessError(f"path enumeration is not deterministic: {len(paths)} vs {n_paths(depth)}")
     mine = paths[k::nk]
     if only is not None:
         mine = [(lb, p) for lb, p in paths if p.replace(w.base, "<scratch>") == only]
@@ -831,30 +846,38 @@ def run_chunk(payload: Tuple) -> Dict[str, Any]:
 
 def run(tier: str, seed: int) -> Report:
     rep = Report(PROP, tier, seed, "exploration")
-    n = n_paths(tier)
-    nk = max(1, -(-n // CHUNK))
-    payloads = [(e, m, tier, seed, k, nk, None) for e in ENTRIES for m in MODES for k in range(nk)]
+    npaths = {e: n_paths(depth_of(e, tier)) for e in ENTRIES}
+    payloads = []
+    for e in ENTRIES:
+        nk = max(1, -(-npaths[e] // (CHUNK // 2 if e in HEAVY else CHUNK)))
+        payloads += [(e, m, tier, seed, k, nk, None) for m in MODES for k in range(nk)]
+    payloads.sort(key=lambda p: p[0] not in HEAVY)  # longest jobs first
     if seed:
         import random
 
         random.Random(seed).shuffle(payloads)
     for part in pmap("checks.c17", "run_chunk", payloads):
         rep.merge(part)
-    expect = n * len(ENTRIES) * len(MODES)
+    expect = sum(npaths.values()) * len(MODES)
+    n = max(npaths.values())
     rep.cov["paths"] = n
+    rep.cov["paths_per_entry_point"] = dict(npaths)
     rep.cov["entry_points"] = len(ENTRIES)
     rep.cov["root_modes"] = len(MODES)
     rep.cov["expected_cases"] = expect
     rep.cov["exhaustive"] = rep.cov.get("evaluations", 0) == expect and not rep.caps
     if rep.cov.get("evaluations", 0) != expect:
         raise HarnessError(f"enumerated {rep.cov.get('evaluations')} cases, expected {expect}")
-    depth = 3 if tier == "quick" else 4
+    depth = max(depth_of(e, tier) for e in ENTRIES)
+    dnote = "" if tier != "quick" else (
+        f"; quick tier: depth 2 ({n_paths(2)} strings) for the entry points that cost a scan or a collection per case "
+        f"({', '.join(HEAVY)})")
     rep.cov["rule"] = (
         f"every string of the grammar: all sequences of 1..{depth} components over {list(COMPONENTS)} joined with '/', "
         f"with and without a leading '/', plus '//'-joined and '//'-prefixed forms for sequences shorter than {depth}, "
         f"plus {len(EXTRAS)} hand-listed sibling-prefix / file-symlink / re-entrant spellings and {N_ABS} true absolute paths "
         f"inside and outside the root ({n} distinct strings) x {len(ENTRIES)} entry points x root reached directly / "
-        "through a symlink; a case is non-trivial when its reference denotation leaves the canonical root or passes "
+        f"through a symlink{dnote}; a case is non-trivial when its reference denotation leaves the canonical root or passes "
         "through a symlink inside the table (distinct = (entry point, root mode, path string))")
     rep.assumptions += [
         "reference denotation: leading slashes stripped ('/x' is documented as table-relative), joined onto the root, "
